@@ -223,6 +223,8 @@ def run(ctx):
     # generated C reads the shared temporary lane-wise, so a wrong share shows up here even where emulation agrees)
     import importlib
     importlib.import_module("rules.c02").d6_reuse_key(db, rep, "D8-REUSE-KEY")
+    # D9: the emulator stages int parameters sign-extended, as the generated C (which declares them int) sees them (shared with C03)
+    importlib.import_module("rules.c03").d9_param_staging(db, rep, "D9-PARAM-STAGING")
 
     if ctx.tier == "thorough":
         d5(ctx, rep)
